@@ -28,10 +28,11 @@ type AsmLine struct {
 	Sym     string `json:"sym,omitempty"`   // DOWN target
 	Sel     string `json:"sel,omitempty"`
 	Label   string `json:"label,omitempty"`
-	Sep     string `json:"sep,omitempty"`     // separator between tokens
-	Trail   string `json:"trail,omitempty"`   // trailing white space
-	Comment string `json:"comment,omitempty"` // trailing or whole-line comment text (without #)
-	After   string `json:"after,omitempty"`   // extra line breaks after the line (blank lines)
+	Sep     string `json:"sep,omitempty"`      // separator between tokens
+	Trail   string `json:"trail,omitempty"`    // trailing white space
+	Comment string `json:"comment,omitempty"`  // trailing or whole-line comment text (without #)
+	After   string `json:"after,omitempty"`    // extra line breaks after the line (blank lines)
+	NumText string `json:"num_text,omitempty"` // how the size/signal is written (default: plain decimal); the value meant is Ins.Num
 }
 
 type C16Case struct {
@@ -127,6 +128,10 @@ func (g asmGens) ins(t *rapid.T) AsmLine {
 	}
 	l := AsmLine{Kind: "ins", Ins: &in}
 	genAsmNoise(t, &l)
+	if strings.Contains(refdec.Shape(op), "i") && chancePct(t, 6, "leadingzero") {
+		// a number written with leading zeros still means that decimal number
+		l.NumText = strings.Repeat("0", 1+uniformN(t, 2, "nzeros")) + fmt.Sprint(in.Num)
+	}
 	return l
 }
 
@@ -226,7 +231,11 @@ func (l AsmLine) text() string {
 					toks = append(toks, string(in.Sel))
 				}
 			case 'i':
-				toks = append(toks, fmt.Sprint(in.Num))
+				if l.NumText != "" {
+					toks = append(toks, l.NumText)
+				} else {
+					toks = append(toks, fmt.Sprint(in.Num))
+				}
 			case 'm':
 				if in.Mode {
 					toks = append(toks, "1")
@@ -298,6 +307,15 @@ func (c C16Case) selectors() []string {
 		}
 	}
 	return s
+}
+
+func (c C16Case) hasLeadingZeroNumber() bool {
+	for _, l := range c.Lines {
+		if l.Kind == "ins" && l.NumText != "" {
+			return true
+		}
+	}
+	return false
 }
 
 func (c C16Case) hasKnownBadSelector() bool {
@@ -391,16 +409,19 @@ func init() {
 	// The predicate holds when the case has such a selector and the same program with
 	// only those selectors replaced by a harmless one assembles correctly — so a second,
 	// different defect in the same case is still reported.
-	knownPredicates["c16-digit-leading-selector"] = func(sub string, raw json.RawMessage, v *Violation) bool {
-		var c C16Case
-		if json.Unmarshal(raw, &c) != nil {
-			return false
-		}
-		if !c.hasKnownBadSelector() {
-			return false
-		}
+	// F-C16-1 / F-C16-2: a predicate holds when the case has its shape and the same program
+	// with the shapes of all *listed* known findings repaired (bad selectors replaced by a
+	// harmless one, leading-zero numbers written as plain decimals) assembles correctly —
+	// so a further, different defect in the same case is still reported.
+	repaired := func(c C16Case) C16Case {
 		for i := range c.Lines {
 			l := &c.Lines[i]
+			if isKnown("F-C16-2") {
+				l.NumText = ""
+			}
+			if !isKnown("F-C16-1") {
+				continue
+			}
 			if l.Kind == "ins" && knownBadSelector(string(l.Ins.Sel)) {
 				in := *l.Ins
 				in.Sel = "z"
@@ -410,7 +431,21 @@ func init() {
 				l.Sel = "z"
 			}
 		}
-		return checkC16(c).Viol == nil
+		return c
+	}
+	knownPredicates["c16-leading-zero-number"] = func(sub string, raw json.RawMessage, v *Violation) bool {
+		var c C16Case
+		if json.Unmarshal(raw, &c) != nil || !c.hasLeadingZeroNumber() {
+			return false
+		}
+		return checkC16(repaired(c)).Viol == nil
+	}
+	knownPredicates["c16-digit-leading-selector"] = func(sub string, raw json.RawMessage, v *Violation) bool {
+		var c C16Case
+		if json.Unmarshal(raw, &c) != nil || !c.hasKnownBadSelector() {
+			return false
+		}
+		return checkC16(repaired(c)).Viol == nil
 	}
 }
 
